@@ -59,7 +59,9 @@ func seqHandler(req *sb.Req) *sb.Rep {
 	var out seqOut
 	if cfg.Entry {
 		for i, src := range cfg.Scripts {
-			path := filepath.Join(sb.WorkerTmp, fmt.Sprintf("entry_%d.php", i))
+			_ = i
+			// the file name is part of every diagnostic: name it after the program, not after its position
+			path := filepath.Join(sb.WorkerTmp, fmt.Sprintf("entry_%016x.php", sb.Hash64(src)))
 			os.WriteFile(path, []byte(src), 0o644)
 			out.Outs = append(out.Outs, strings.ReplaceAll(runEntry(path), sb.WorkerTmp, "<tmp>"))
 		}
@@ -108,25 +110,39 @@ func seqHandler(req *sb.Req) *sb.Rep {
 // runEntry runs one file on a fresh VM through the production entry point and returns stdout plus
 // whatever the run wrote to the process's stderr.
 func runEntry(path string) (res string) {
-	var stdout strings.Builder
-	data.WriteOutput = func(s string) {
-		if stdout.Len() < 1<<20 {
-			stdout.WriteString(s)
-		}
+	// stdout and stderr of the process are redirected around the run; the interpreter's own default
+	// output writer stays in place (it is what records that a program has printed something)
+	data.WriteOutput = data.DefaultOutputWriter
+	outFile, err := os.CreateTemp(sb.WorkerTmp, "stdout-")
+	if err != nil {
+		return "[[infra: " + err.Error() + "]]"
 	}
 	errFile, err := os.CreateTemp(sb.WorkerTmp, "stderr-")
 	if err != nil {
 		return "[[infra: " + err.Error() + "]]"
 	}
+	defer os.Remove(outFile.Name())
 	defer os.Remove(errFile.Name())
-	saved, _ := syscall.Dup(2)
+	os.Stdout.Sync()
+	saved1, _ := syscall.Dup(1)
+	saved2, _ := syscall.Dup(2)
+	syscall.Dup2(int(outFile.Fd()), 1)
 	syscall.Dup2(int(errFile.Fd()), 2)
-	restore := func() string {
-		syscall.Dup2(saved, 2)
-		syscall.Close(saved)
-		errFile.Close()
-		b, _ := os.ReadFile(errFile.Name())
-		return string(b)
+	restored := false
+	restore := func() (string, string) {
+		if !restored {
+			restored = true
+			os.Stdout.Sync()
+			syscall.Dup2(saved1, 1)
+			syscall.Dup2(saved2, 2)
+			syscall.Close(saved1)
+			syscall.Close(saved2)
+			outFile.Close()
+			errFile.Close()
+		}
+		o, _ := os.ReadFile(outFile.Name())
+		e, _ := os.ReadFile(errFile.Name())
+		return string(o), string(e)
 	}
 	defer func() {
 		if r := recover(); r != nil {
@@ -134,13 +150,18 @@ func runEntry(path string) (res string) {
 			if c, ok := r.(data.Control); ok {
 				msg = c.AsString()
 			}
-			res = stdout.String() + "\n[[stderr: " + restore() + "]]\n[[go-panic: " + clip(firstLine(msg), 200) + "]]"
+			o, e := restore()
+			res = o + "\n[[stderr: " + e + "]]\n[[go-panic: " + clip(firstLine(msg), 200) + "]]"
 		}
 	}()
 	p := parser.NewParser()
 	vm := runtime.NewVM(p)
 	std.Load(vm)
 	php.Load(vm)
+	// the default handler prints the diagnostic and exits the process; keep the printing, drop the exit
+	if rvm, ok := vm.(*runtime.VM); ok {
+		rvm.SetThrowControl(func(acl data.Control) { p.ShowControl(acl) })
+	}
 	_, c := vm.LoadAndRun(path)
 	if c != nil {
 		p.ShowControl(c)
@@ -148,8 +169,8 @@ func runEntry(path string) (res string) {
 	if data.FlushAllBuffersFn != nil {
 		data.FlushAllBuffersFn()
 	}
-	se := restore()
-	return stdout.String() + "\n[[stderr: " + se + "]]"
+	o, e := restore()
+	return o + "\n[[stderr: " + e + "]]"
 }
 
 func seqRunEntry(pool *sb.Pool, scripts []string) ([]string, *sb.Rep) {
